@@ -1,4 +1,26 @@
 // Obligation unit `layout`: variant-closing strategies of the native builder.
+//!min-verified: 40
+//!assume: std: `X.iter().cloned()` yields the elements of X in order (rule R10, `vx_iter_cloned` is external_body)
+//!assume: L4 `remove_data` (retain/any over a cloned iterator) is external_body here: contract `self' = filtered(self, ids)`; the same contract is checked on the real function by Kani (bounded) in unit kani-layout
+//!assume: derive(Clone, Copy, PartialEq, Eq) on DatumId behaves as documented (rule R5)
+//!assume: domain bound: ends of existing data <= 2^30, size+align of an added datum <= 2^14, <= 2^16 additions per close; outside it usize arithmetic of the real code overflows
+//!assume: Verus' encoding of Rust semantics, Z3, rustc front end
+//!props fn align_bytes : C01, C02
+//!props fn end : C01, C02, C03
+//!props fn push_datum : C01, C02, C03
+//!props fn remove_data : C01, C02, C03, C12
+//!props fn append_data : C01, C02, C03, C12, C13
+//!props fn append_data_reverse : C01, C02, C03, C12, C13
+//!props fn basic : C01, C02, C03, C12, C13
+//!props fn offset : C01, C02, C03
+//!props fn size : C01, C02, C03
+//!props fn type_align : C01, C02, C03
+//!props fn details : C01, C02, C03
+//!props fn details_mut : C01, C02, C03
+//!props fn get : C01, C02, C03
+//!props fn get_mut : C01, C02, C03
+//!props lemma lemma_wf_implies_disjoint : C01
+//!props lemma lemma_wf_nonzst_strict : C02
 // Everything between `// from <file>:<line>` markers and the next blank template text is copied
 // from /repo on every run by lib/vx.py; contracts are spliced in.  See DESIGN.md 3.2.
 #![allow(unused_imports, unused_variables, dead_code, non_snake_case, unused_mut)]
@@ -571,7 +593,10 @@ pub open spec fn strategy_post(r: Seq<DatumId>, data: Seq<DatumId>, add: Seq<Dat
 //@ requires
         strategy_pre(data@, data_to_add@, data_to_remove@, old(datum_definitions).data@)
 //@ ensures
-        strategy_post(r@, data@, data_to_add@, data_to_remove@, old(datum_definitions).data@, final(datum_definitions).data@)
+        wf(r@, final(datum_definitions).data@), // [C01,C02,C13]
+        members_are(r@, filtered(data@, data_to_remove@), data_to_add@), // [C12]
+        same_except(old(datum_definitions).data@, final(datum_definitions).data@, data_to_add@), // [C03]
+        bounded(r@, final(datum_definitions).data@, B + N * S), // [C02]
 //@ hint fn.start
     let ghost data0 = data@;
     let ghost defs0 = datum_definitions.data@;
@@ -653,7 +678,10 @@ pub proof fn lemma_members_reverse(out: Seq<DatumId>, f: Seq<DatumId>, add: Seq<
 //@ requires
         strategy_pre(data@, data_to_add@, data_to_remove@, old(datum_definitions).data@)
 //@ ensures
-        strategy_post(r@, data@, data_to_add@, data_to_remove@, old(datum_definitions).data@, final(datum_definitions).data@)
+        wf(r@, final(datum_definitions).data@), // [C01,C02,C13]
+        members_are(r@, filtered(data@, data_to_remove@), data_to_add@), // [C12]
+        same_except(old(datum_definitions).data@, final(datum_definitions).data@, data_to_add@), // [C03]
+        bounded(r@, final(datum_definitions).data@, B + N * S), // [C02]
 //@ hint fn.start
     let ghost data0 = data@;
     let ghost defs0 = datum_definitions.data@;
@@ -826,7 +854,10 @@ pub proof fn lemma_insert_wf(data: Seq<DatumId>, defs_b: Defs, defs_a: Defs, dc:
 //@ requires
         strategy_pre(data@, data_to_add@, data_to_remove@, old(datum_definitions).data@)
 //@ ensures
-        strategy_post(r@, data@, data_to_add@, data_to_remove@, old(datum_definitions).data@, final(datum_definitions).data@)
+        wf(r@, final(datum_definitions).data@), // [C01,C02,C13]
+        members_are(r@, filtered(data@, data_to_remove@), data_to_add@), // [C12]
+        same_except(old(datum_definitions).data@, final(datum_definitions).data@, data_to_add@), // [C03]
+        bounded(r@, final(datum_definitions).data@, B + N * S), // [C02]
 //@ hint fn.start
     let ghost data0 = data@;
     let ghost defs0 = datum_definitions.data@;
